@@ -67,7 +67,7 @@ def build(pid: str, modules: list[str], theorems: list[str], tier: str = "quick"
         if rc != 0:
             res.tables_ok = False
         # translator for the lookup classes (Python source -> Lean): a source outside the translated fragment is a broken tie
-        for script in ("gen_translate.py", "gen_translate_flows.py", "gen_translate_funcs.py"):
+        for script in ("gen_translate.py", "gen_translate_flows.py", "gen_translate_funcs.py", "gen_translate_enc.py"):
             rc, out = sh([sys.executable, str(VERIF / "harness" / script)], cwd=VERIF / "harness")
             res.log += out
             if rc != 0:
